@@ -130,6 +130,14 @@ where
             node_config.clone(),
         );
 
+        // Term and vote must reach stable storage when they change, not only in `Drop`: a node that
+        // crashes after granting a vote (or adopting a term) must not come back with the old values.
+        let mut role = role;
+        let raft_log_for_hard_state = ctx.raft_log().clone();
+        role.state_mut().shared_state_mut().set_hard_state_sink(Arc::new(
+            move |hard_state: &super::HardState| raft_log_for_hard_state.save_hard_state(hard_state),
+        ));
+
         Raft {
             node_id,
             ctx,
